@@ -273,6 +273,12 @@ func genC17(t *rapid.T) (*DCase, map[string]bool, bool) {
 				args = append(args, ast.Id(nodeVar(root.index)))
 			}
 		}
+		if g.n(0, 5, "nestedprint") == 0 {
+			// one argument is computed by a function that prints a line of its own first
+			k := g.n(0, len(args)-1, "nestedwhich")
+			args[k] = ast.Call(ast.Id("c17sh"), args[k])
+			g.labels["print-inside-print-argument"] = true
+		}
 		prints = append(prints, ast.Print(args...))
 	}
 	stmts = append(stmts, g.build()...)
@@ -291,7 +297,9 @@ func genC17(t *rapid.T) (*DCase, map[string]bool, bool) {
 		g.labels["gallery-of-containers"] = true
 	}
 	doc := gen.JSONDoc(gen.DocOpts{Depth: 2, MaxItems: 3, SafeStr: true, ForceEmpty: true}).Draw(t, "doc")
-	items := []*ast.Node{ast.Rule("pattern", nil, ast.Block(stmts...))}
+	items := []*ast.Node{
+		ast.Func("c17sh", []string{"c17v"}, ast.Block(ast.Print(ast.Str("inner"), ast.Id("c17v"), ast.Str("")), ast.Return(ast.Id("c17v")))),
+		ast.Rule("pattern", nil, ast.Block(stmts...))}
 	if rapid.Bool().Draw(t, "bodiless") {
 		// a rule without a body prints $
 		items = append(items, ast.Rule("pattern", ast.True(), nil))
